@@ -30,7 +30,7 @@ pub fn worlds(net: &Net, tier: Tier, idx: u64) -> Vec<World> {
     let full = tier == Tier::Thorough;
     for (ui, (su, du, tu, fdu, ftu, delu)) in units.iter().enumerate() {
         for (ii, (id, it)) in [(0.0, 0.0), (12.5, 3.25)].iter().enumerate() {
-            for (wi, (wd, wt, rd, rt)) in [(0.0, 1.0, Rate::Raw, Rate::Raw), (1.0, 1.0, Rate::Factor(0.5), Rate::Factor(2.0)), (1.0, 0.0, Rate::Raw, Rate::Raw)].iter().enumerate() {
+            for (wi, (wd, wt, rd, rt)) in [(0.0, 1.0, Rate::Raw, Rate::Raw), (1.0, 1.0, Rate::Factor(0.5), Rate::Factor(2.0)), (1.0, 0.0, Rate::Raw, Rate::Raw), (0.5, 2.0, Rate::Combined(vec![Rate::Factor(0.01), Rate::Offset(1.5)]), Rate::Offset(30.0))].iter().enumerate() {
                 for turn_on in [true, false] {
                     if !full && (ui * 3 + ii * 2 + wi + turn_on as usize + k) % 12 != 0 {
                         continue;
@@ -213,7 +213,7 @@ pub fn run(tier: Tier) -> i32 {
         st,
         "state = one labelled multigraph; transition = one real search under one speed/heading/delay/unit/initial-state configuration; every returned route (all algorithms, both orientations, both directions, the re-oriented reverse half of single-via alternatives) is walked and compared with the reference accumulation; non-trivial = route of >= 2 edges",
         true,
-        json!({"graph_families": desc, "unit_tuples": 7, "initial_states": 2, "weight_rate_sets": 3, "turn_delays": "on/off", "quick_subset": "1/12 of the configuration product per net, rotating with the net index"}),
+        json!({"graph_families": desc, "unit_tuples": 7, "initial_states": 2, "weight_rate_sets": 4, "turn_delays": "on/off", "quick_subset": "1/12 of the configuration product per net, rotating with the net index"}),
         vec![
             "tolerance 1e-8 where every add is a pure addition in base units, 3e-3 where the repository's unit tables intervene (DESIGN §2.4)".into(),
             "for edge-oriented queries the origin/destination edge may follow the zero-cost convention, and the turn out of a zero-convention origin edge may be uncharged".into(),
